@@ -452,7 +452,7 @@ func (g *egen) dest(self string) string {
 }
 
 func (g *egen) content(limit int) string {
-	words := []string{"x", "ok", "hello", "lorem ipsum", "0123456789", "a\nbb\nccc", "one\ntwo\nthree\nfour\nfive", ""}
+	words := []string{"x", "ok", "hello", "lorem ipsum", "0123456789", "a\nbb\nccc", "one\ntwo\nthree\nfour\nfive", "", "blåbærsyltetøy", "ñandú\n日本語", "ééééééééééééééééééééééééé"}
 	switch g.r.Intn(12) {
 	case 0:
 		if limit > 0 {
@@ -694,7 +694,7 @@ func genApp(r *rand.Rand) genOut {
 		}
 		a.Code = append(a.Code, kv{n, string(code)})
 		// template
-		t := pick(r, []string{"this is " + n, n, "T", "a longer text for node " + n + " which takes space", ""})
+		t := pick(r, []string{"this is " + n, n, "T", "a longer text for node " + n + " which takes space", "", "nœud " + n + " åäö üüüüüüüüüü"})
 		for _, s := range mapped {
 			if r.Intn(5) > 0 {
 				t += pick(r, []string{" ", "\n", ": "}) + "{{." + s + "}}"
@@ -712,7 +712,7 @@ func genApp(r *rand.Rand) genOut {
 	// menu labels
 	for _, l := range []string{"lbl1", "to_foo", "nxt"} {
 		if r.Intn(3) == 0 {
-			a.Menu = append(a.Menu, kv{l + "_menu", strings.ToUpper(l)})
+			a.Menu = append(a.Menu, kv{l + "_menu", pick(r, []string{strings.ToUpper(l), "étiquette " + l})})
 		}
 		if r.Intn(5) == 0 {
 			a.Menu = append(a.Menu, kv{l + "_menu_" + pick(r, []string{"nor", "swa"}), "tr" + l})
@@ -737,8 +737,12 @@ func genApp(r *rand.Rand) genOut {
 	c.ResetEmpty = r.Intn(10) == 0
 	if r.Intn(7) == 0 {
 		c.First = g.script(0, false)
-		if r.Intn(3) == 0 {
+		if r.Intn(2) == 0 {
 			c.First[0].Set = append(c.First[0].Set, state.FLAG_TERMINATE)
+			if r.Intn(2) == 0 { // an exit value of the entry function that may not fit the output size
+				c.First[0].Content = strings.Repeat("exit value ", 1+r.Intn(8))
+				c.First[0].Fail = false
+			}
 		}
 	}
 	return genOut{app: a, cfg: c, sels: g.sels, desc: desc}
@@ -855,6 +859,10 @@ var engineCorpus = []corpusCase{
 		tplx: []kv{{"root_nor", "rot"}, {"foo_nor", "fu"}}, fn: map[string][]eFres{"lang1": []eFres{{Content: "nor", Set: []uint32{7}}, {Content: "", Set: []uint32{7}}, {Content: "xx", Set: []uint32{7}}}}, cfg: eCfg{FlagCount: 1}, inputs: []string{"", "1", "0", "1", "0"}},
 	{name: "first-terminate", nodes: [][3]string{{"root", "HALT; INCMP foo 1", "root"}, {"foo", "HALT; INCMP _ 0", "foo"}, {"_catch", "HALT; INCMP _ *", "catch"}},
 		cfg: eCfg{FlagCount: 1, First: []eFres{{Content: "hello"}, {Content: "blocked", Set: []uint32{6}}, {Content: "again"}}}, inputs: []string{"", "1", "0", "!bad", "1"}},
+	{name: "first-long-exit", nodes: [][3]string{{"root", "HALT; INCMP foo 1", "root"}, {"foo", "HALT; INCMP _ 0", "foo"}, {"_catch", "HALT; INCMP _ *", "catch"}},
+		cfg: eCfg{FlagCount: 1, Out: 32, First: []eFres{{Content: strings.Repeat("x", 50), Set: []uint32{6}}, {Content: "short", Set: []uint32{6}}}}, inputs: []string{"", "1", "0"}},
+	{name: "multibyte-size", nodes: [][3]string{{"root", "LOAD aa 0; MAP aa; MOUT étiq 1; HALT; INCMP foo 1", "blåbær {{.aa}}"}, {"foo", "HALT; INCMP _ 0", "fóó"}, {"_catch", "HALT; INCMP _ *", "catch"}},
+		fn: map[string][]eFres{"aa": st1("ééééééééééééééééé")}, cfg: eCfg{FlagCount: 1, Out: 48}, inputs: []string{"", "1", "0"}},
 	{name: "first-refused", nodes: [][3]string{{"root", "HALT; INCMP foo 1", "root"}, {"foo", "HALT; INCMP _ 0", "foo"}, {"_catch", "HALT; INCMP _ *", "catch"}},
 		cfg: eCfg{FlagCount: 1, First: []eFres{{Content: "f", Echo: true}}}, inputs: []string{"", "!bad", "1", strings.Repeat("9", 300), "0"}},
 	{name: "restart-after-error", nodes: [][3]string{{"root", "LOAD aa 5; MAP aa; HALT; INCMP foo 1", "root {{.aa}}"}, {"foo", "HALT; INCMP _ 0", "foo"}, {"_catch", "HALT; INCMP _ *", "catch"}},
